@@ -47,6 +47,7 @@ from uuid import UUID
 
 from inscripta.biocantor.exc import (
     DuplicateFeatureError,
+    InvalidAnnotationError,
     LocationOverlapException,
     EmptyLocationException,
     NullSequenceException,
@@ -354,6 +355,8 @@ class VariantIntervalCollection(AbstractFeatureIntervalCollection):
         qualifiers: Optional[Dict[Hashable, List[QualifierValue]]] = None,
         parent_or_seq_chunk_parent: Optional[Parent] = None,
     ):
+        if not variant_intervals:
+            raise InvalidAnnotationError("VariantIntervalCollection must have variant intervals")
         self.variant_intervals = sorted(variant_intervals, key=lambda x: x.start)
         # validate the variant intervals for not being overlapping
         for i in range(len(self.variant_intervals) - 1):
